@@ -303,18 +303,19 @@ pub async fn copy_async<'a>(cache: &'a Path, sri: &'a Integrity, to: &'a Path) -
 
 pub fn hard_link_unchecked(cache: &Path, sri: &Integrity, to: &Path) -> Result<()> {
     let cpath = path::content_path(cache, sri);
-    // The content path of a linked entry (`link_to`) is a symlink, and
-    // `hard_link` gives the symlink itself a second name without looking at
-    // what it points to: make sure there is content behind it, so that missing
-    // content is an error here as for every other way of extracting.
-    std::fs::metadata(&cpath).with_context(|| {
+    // The content path may be a symlink (a linked entry made by `link_to`, a
+    // de-duplicated store), and `hard_link` would give the symlink itself a
+    // second name: a relative link text then means another file next to the
+    // destination, and a dangling one is "extracted" successfully. Link the
+    // file the path leads to -- the one a checked extraction has verified.
+    let source = std::fs::canonicalize(&cpath).with_context(|| {
         format!(
             "Failed to link cache contents from {} to {}",
             cpath.display(),
             to.display()
         )
     })?;
-    std::fs::hard_link(cpath, to).with_context(|| {
+    std::fs::hard_link(source, to).with_context(|| {
         format!(
             "Failed to link cache contents from {} to {}",
             path::content_path(cache, sri).display(),
